@@ -167,6 +167,14 @@ struct Build {
     code: Result<V, String>,
 }
 
+/// a compile-time rejection that is the failure of an evaluation (a CLVM operator outside its
+/// domain, a raise), as opposed to a diagnostic of the compiler
+fn is_evaluation_failure(msg: &str) -> bool {
+    ["InvalidOperatorArg", "non-cons", "path into atom", "clvm raise", " on list", "with 0", "requires int", "requires 2 arg", "InvalidAllocArg", "shift too large", "invalid indices for substr", "atom is not a"]
+        .iter()
+        .any(|p| msg.contains(p))
+}
+
 fn group(d: Dialect) -> u8 {
     if d.int_fix() {
         1
@@ -261,12 +269,31 @@ fn judge_program(prog: &Program, dialects: &[Dialect], args: &[V], st: &mut Stat
                         if b.d == *d && b.mo.frontend_opt == fe && bi != base {
                             match &results[bi] {
                                 None => {
+                                    // the folding optimisers evaluate constant sub-expressions at compile
+                                    // time and reject the program when one fails for every input -- by
+                                    // design and outside the quantifier ("such sub-expressions are not
+                                    // generated"); the generator still reaches one now and then through a
+                                    // call with constant operands.  Recognised by the rejection being an
+                                    // evaluation failure rather than a compiler diagnostic.
+                                    let msg = b.code.as_ref().err().cloned().unwrap_or_default();
+                                    if is_evaluation_failure(&msg) {
+                                        st.label("optimised-build-rejects-a-constant-failure(outside the quantifier)");
+                                        continue;
+                                    }
                                     let mut c = mk_case(b, v0, "the unoptimised build of this dialect compiles and returns a value");
                                     c["compile_error"] = json!(b.code.as_ref().err().cloned().unwrap_or_default());
                                     return Err(Viol::new(&format!("optimised-build-rejects:{}:{}", b.d.name(), b.mo.name()), format!("compiles; value {}", v0.show()), format!("compile error: {}", b.code.as_ref().err().cloned().unwrap_or_default()), c));
                                 }
                                 Some(Err(m)) => {
                                     if sut::is_cost_exceeded(m) {
+                                        continue;
+                                    }
+                                    // "Builds may differ in how lazily they evaluate unused erroneous
+                                    // subexpressions": when call-by-value evaluation of the source itself
+                                    // fails on these arguments, a build that fails where a lazier one
+                                    // returns is within the statement
+                                    if matches!(refs[ai], Outcome::Fails(_)) {
+                                        st.label("optimised-build-fails-where-call-by-value-evaluation-fails(laziness; allowed)");
                                         continue;
                                     }
                                     return Err(Viol::new(&format!("optimised-build-fails:{}:{}", b.d.name(), b.mo.name()), format!("value {}", v0.show()), format!("error: {m}"), mk_case(b, v0, "the unoptimised build of this dialect returns a value")));
